@@ -276,8 +276,20 @@ def jac_stock(sc):
             ss1.j_update(models=m1)
             patA = _pattern(ss1)
             J1 = np.array(matrix(sparse([[ss1.dae.fx, ss1.dae.gx], [ss1.dae.fy, ss1.dae.gy]])))
-            same_pat = patA == pat1
-            same_val = J1.shape == J.shape and bool(np.all(np.abs(J1 - J) <= 1e-12 * (1.0 + np.abs(J))))
+            # rows of buses with no branch in service are regularised differently by the two modes (see the cut-off bus finding)
+            skip = set()
+            deg0 = {}
+            for k_ in range(ss.Line.n):
+                if ss.Line.u.v[k_] == 1:
+                    for b_ in (ss.Line.bus1.v[k_], ss.Line.bus2.v[k_]):
+                        deg0[b_] = deg0.get(b_, 0) + 1
+            for k_ in range(ss.Bus.n):
+                if deg0.get(ss.Bus.idx.v[k_], 0) == 0:
+                    skip.update([int(ss.Bus.a.a[k_]), int(ss.Bus.v.a[k_])])
+            keep = np.array([i for i in range(J.shape[0]) if (i - dae.n) not in skip], dtype=int)
+            same_pat = all({e for e in patA[nm] if not (nm[0] == "g" and e[0] in skip)} == {e for e in pat1[nm] if not (nm[0] == "g" and e[0] in skip)}
+                           for nm in ("fx", "fy", "gx", "gy"))
+            same_val = J1.shape == J.shape and bool(np.all(np.abs(J1[keep] - J[keep]) <= 1e-12 * (1.0 + np.abs(J[keep]))))
             rec["modes_agree"] = bool(same_pat and same_val)
             if not rec["modes_agree"]:
                 diff = []
